@@ -1,7 +1,7 @@
 #!/bin/bash
 # usage: tools_regress.sh [jobs] ; re-runs every stored seed against the current checks, in parallel, each in a scratch worktree of /repo put first on
 # PYTHONPATH (screening only: /repo, /verif/evidence and /verif/replays are not touched; the recorded results in seeded/*/meta.json come from tools_runseed.sh)
-jobs=${1:-4}
+jobs=${1:-3}
 one() {
   sd=$1; name=$(basename $sd); wt=/tmp/regress_wt_$name; out=/tmp/regress_out_$name
   prop=$(python3 -c "import json; print(json.load(open('$sd/meta.json'))['property'])")
